@@ -15,7 +15,7 @@ fn b64j(v: &Value) -> String {
 
 const KINDS: &[&str] = &[
     "arity-place", "name-type", "name-type-at-element", "name-reserved", "shape", "collision", "digest-twice", "digest-twice-in-arrays",
-    "extra-unreferenced-name-type", "extra-unreferenced-reserved", "extra-unreferenced-shape",
+    "extra-unreferenced-name-type", "extra-unreferenced-reserved", "extra-unreferenced-shape", "extra-unreferenced-text",
     "sd-not-array-payload", "sd-not-array-value", "placeholder-extra-payload", "placeholder-extra-value", "sd-alg",
 ];
 
@@ -104,7 +104,7 @@ fn make_defect(ctx: &mut Ctx, rng: &mut Rng, ic: &IssuedCase, kind: &str, target
             let bad = rng.pick(&[json!(5), Value::Null, json!(["k"]), json!({"k": 1}), json!(false), json!(0)]).clone();
             tree.set_disc(target, &b64j(&json!([salt, bad, v])));
         }
-        "extra-unreferenced-name-type" | "extra-unreferenced-reserved" | "extra-unreferenced-shape" => {}
+        "extra-unreferenced-name-type" | "extra-unreferenced-reserved" | "extra-unreferenced-shape" | "extra-unreferenced-text" => {}
         "name-reserved" => {
             key.as_ref()?;
             let bad = *rng.pick(&["_sd", "..."]);
@@ -223,6 +223,34 @@ fn make_defect(ctx: &mut Ctx, rng: &mut Rng, ic: &IssuedCase, kind: &str, target
         let at = rng.below(discs.len() + 1);
         detail["extra"] = e.clone();
         discs.insert(at, b64j(&e));
+    }
+    if kind == "extra-unreferenced-text" {
+        // a string that is no base64url text at all (C12_foreign_character_rejected,
+        // C12_dangling_character_rejected, C12_one_spelling): a well-formed disclosure re-spelled with
+        // padding, the standard alphabet, white space, a dangling character or non-zero trailing bits
+        let good = b64j(&json!(["s", "k", 1]));
+        let mut with_bits = b64j(&json!(["s", "kk", 1]));
+        let bad: String = match rng.below(7) {
+            0 => format!("{}=", good),
+            1 => format!("{}==", b64j(&json!(["s", "kk", 1]))),
+            2 => format!("{}+", &good[..good.len() - 1]),
+            3 => format!("{}/", &good[..good.len() - 1]),
+            4 => format!(" {}", good),
+            5 => { let mut g = good.clone(); while g.len() % 4 != 1 { g.push('A'); } g }
+            _ => {
+                // length 2 mod 4 or 3 mod 4: the last character carries unused bits; set one of them
+                if with_bits.len() % 4 == 0 { with_bits = b64j(&json!(["s", "k", 1])); }
+                let last = with_bits.pop().unwrap_or('A');
+                const AL: &[u8] = b"ABCDEFGHIJKLMNOPQRSTUVWXYZabcdefghijklmnopqrstuvwxyz0123456789-_";
+                let i = AL.iter().position(|c| *c as char == last).unwrap_or(0);
+                with_bits.push(AL[i | 1] as char);
+                if i | 1 == i { with_bits.push('='); }
+                with_bits
+            }
+        };
+        let at = rng.below(discs.len() + 1);
+        detail["extra_text"] = json!(bad);
+        discs.insert(at, bad);
     }
     Some(Defective { payload, discs, detail })
 }
